@@ -327,7 +327,8 @@ func TestC18JsonRoundTrip(t *testing.T) {
 				cnt := uint64(c.Int("rt.count", 1, 40))
 				res, err := led.GetAccountBlocksByHeight(addr, h, cnt)
 				if err != nil {
-					c.Failf(keyError, "GetAccountBlocksByHeight(%v,%d,%d): %v", addr, h, cnt, err)
+					rtErr(c, v, addr, "GetAccountBlocksByHeight", err)
+					return
 				}
 				c.Note("blocks %d..+%d of %v on %s: %d returned", h, cnt, addr, v.Name, len(res.List))
 				for _, b := range res.List {
@@ -338,7 +339,8 @@ func TestC18JsonRoundTrip(t *testing.T) {
 				addr := (&Env{C: c, V: v}).Addr("rt.addr")
 				res, err := led.GetAccountBlocksByPage(addr, uint32(c.Int("rt.page", 0, 12)), uint32(c.Int("rt.size", 1, 40)))
 				if err != nil {
-					c.Failf(keyError, "GetAccountBlocksByPage(%v): %v", addr, err)
+					rtErr(c, v, addr, "GetAccountBlocksByPage", err)
+					return
 				}
 				c.Note("a page of %v on %s: %d returned", addr, v.Name, len(res.List))
 				for _, b := range res.List {
@@ -349,7 +351,8 @@ func TestC18JsonRoundTrip(t *testing.T) {
 				addr := (&Env{C: c, V: v}).Addr("rt.addr")
 				res, err := led.GetUnconfirmedBlocksByAddress(addr, 0, 50)
 				if err != nil {
-					c.Failf(keyError, "GetUnconfirmedBlocksByAddress(%v): %v", addr, err)
+					rtErr(c, v, addr, "GetUnconfirmedBlocksByAddress", err)
+					return
 				}
 				res2, err := led.GetUnreceivedBlocksByAddress(addr, uint32(c.Int("rt.upage", 0, 5)), 50)
 				if err != nil {
@@ -407,9 +410,11 @@ func TestC18JsonRoundTrip(t *testing.T) {
 				if b != nil {
 					roundTripBlock(c, "GetAccountBlockByHash", b, v.ByHash[b.Hash], st)
 				}
-				f, err := led.GetFrontierAccountBlock(e.Addr("rt.faddr"))
+				faddr := e.Addr("rt.faddr")
+				f, err := led.GetFrontierAccountBlock(faddr)
 				if err != nil {
-					c.Failf(keyError, "GetFrontierAccountBlock: %v", err)
+					rtErr(c, v, faddr, "GetFrontierAccountBlock", err)
+					return
 				}
 				if f != nil {
 					roundTripBlock(c, "GetFrontierAccountBlock", f, v.ByHash[f.Hash], st)
@@ -486,4 +491,17 @@ func exhaustive(c *pbt.C, v *View, st *rtStats) {
 		}
 	}
 	c.Class("exhaustive-pass-over-" + v.Name)
+}
+
+// rtErr: the only error a block query within the limits may answer with is the known
+// "unconfirmed token" refusal (see BlockErrOK).
+func rtErr(c *pbt.C, v *View, addr types.Address, what string, err error) {
+	e := &Env{C: c, V: v}
+	if err.Error() == "data non existent" && e.unconfirmedToken(addr) {
+		if c.Failf(keyNewToken, "%s(%v) failed (%v): the chain holds an unconfirmed block in a token issued by a not yet confirmed block", what, addr, err) {
+			c.Class("known-unconfirmed-token-hit")
+			return
+		}
+	}
+	c.Failf(keyError, "%s(%v): %v", what, addr, err)
 }
